@@ -1,6 +1,9 @@
 #!/bin/bash
 # The repository's own test suite with the hook guard OFF (plain cmake build of /repo/_build).
 set -e
+mkdir -p /verif/.build
+exec 9>/verif/.build/baseline.lock
+flock 9
 cd /repo
 if [ ! -f _build/build.ninja ]; then
   cmake -G Ninja -B _build -DENABLE_TESTS=ON >/dev/null
